@@ -2,6 +2,8 @@
 # © Copyright 2021-2022 Zapata Computing Inc.
 ################################################################################
 """Definition of predefined gate matrices and related utility functions."""
+import math
+
 import numpy as np
 import sympy
 
@@ -21,10 +23,11 @@ def z_matrix():
 
 
 def h_matrix():
+    # Python floats: sympy cannot ingest the numpy scalars np.sqrt returns.
     return sympy.Matrix(
         [
-            [(1 / np.sqrt(2)), (1 / np.sqrt(2))],
-            [(1 / np.sqrt(2)), (-1 / np.sqrt(2))],
+            [(1 / math.sqrt(2)), (1 / math.sqrt(2))],
+            [(1 / math.sqrt(2)), (-1 / math.sqrt(2))],
         ]
     )
 
